@@ -160,13 +160,13 @@ theorem no_panic_witness : ¬ C13_full := by
   obtain ⟨r, hr⟩ := h Unit Unit ops laws [.send 0 ()] (by simp [sendsOk, inI32])
   simp [Sys.run, Sys.step, sendSnap, Storage.addSnap, ops] at hr
 
-/-- **D25 in the concrete snapshot model.**  Two snapshots built the way the sender glue builds them
-while the free list is empty (a fresh `Builder` each): the first holds one item of UUID type 1001
+/-- **D25 in the concrete snapshot model.**  Two snapshots built the way the sender glue built them
+before the repair of `Storage::new_builder` while the free list was empty (a fresh `Builder` each): the first holds one item of UUID type 1001
 (two integers), the second additionally one item of UUID type 1000 (one integer), added first.
 Every `(type, id)` keeps its size, yet the builder gives raw type number 0x4000 to type 1001 in the
 first snapshot and to type 1000 in the second, the raw key `(0x4000, 0)` has two and one integers,
-and `Delta::create` refuses (panics in the implementation; replayed there by
-`corpus/snapmgr/finding-d25.txt`). -/
+and `Delta::create` refuses (it panicked in the implementation; `corpus/snapmgr/fixed-d25.txt`).
+This is why `new_builder` now continues the registry of the newest stored snapshot. -/
 theorem d25_witness :
     ∃ a b : Tw.Snap.Snap,
       freshBuild [(.uuid 1001, 0, [5, 5])] = some a ∧
